@@ -247,6 +247,10 @@ def contract(t, op, v, data=None, dst=None, dst_tree=None):
         if k == 'absent':
             return Expect('err', not_found_or_any(t, v), why='target does not exist')
         return Expect('ok_or_utf8', tree=t, ret=t.content(v))
+    if op.startswith('set_time'):
+        if k == 'absent':
+            return Expect('err', not_found_or_any(t, v), why='target does not exist')
+        return Expect('either', tree=t, why='setters may be unsupported; the tree never changes')
     if op == 'create_dir_all':
         chain = list(reversed(u.ancestors(v)))[1:] + [v] if v != 'R' else []
         for c in chain:
@@ -408,9 +412,10 @@ def compare_tree(sr, u, snap, t, prefix=''):
                     cands = [(c, sr.w.as_str(sr.paths[prefix + c])) for c in u.children(v)]
                     matched, foreign = match_names(ex, o.listing, cands)
                     want_ch = sorted(t.children(v))
-                    if sorted(matched) != want_ch or foreign:
-                        diffs.append((v, 'listing', 'lists %s%s, expected %s' % (
-                            sorted(matched), (' + foreign %r' % (foreign,)) if foreign else '', want_ch)))
+                    if sorted(matched) != want_ch:
+                        diffs.append((v, 'listing', 'lists %s, expected %s' % (sorted(matched), want_ch)))
+                    if foreign:
+                        diffs.append((v, 'foreign', 'lists foreign entries %r (not paths of the universe)' % (foreign,)))
     return diffs, obligations
 
 
